@@ -115,7 +115,7 @@ def explore(ctx):
         return {"exclude": sub}, set(names) - set(sub)
 
     rng = ctx.subrng("filters")
-    pres, flat, trans = ([], []), ([], []), ([], [])
+    pres, flat, trans, prop = ([], []), ([], []), ([], []), ([], [])
     matcases, matmeta = [], []
     for i in range(ctx.budget(90, 700)):
         desc = gen_component_font(rng, anchors=True, max_depth=4)
@@ -251,12 +251,24 @@ def explore(ctx):
             trans[1].append(case)
         else:
             check_propagate(ctx, case, before, after, font, kw, lib, desc)
+            # the transcription (Geometry/Propagate.v) on the same glyph set: same anchors, glyph by glyph
+            prop[0].append(G.tup(G.lst([], "str"), G.lst([G.s(n) for n in names if n in included], "str"), g0, g1))
+            prop[1].append(case)
     mv = ctx.coq_eval("From Coq Require Import QArith Qcanon.\nFrom U2F Require Import Base.Prelude Geometry.Model Geometry.TransformMatrix.",
                       "fun c : (Qc * Qc * Qc * Qc * Qc * Qc * affine) => let '(ox, oy, fx, fy, t, h, m) := c in "
                       "if affine_eqb (build_matrix ox oy fx fy t h) m then 3 else 2", matcases, chunk=100, tag="Matrix")
     for v, case in zip(mv, matmeta):
         if v is not None and v != 3:
             ctx.corr_mismatch(case, "the check's requested matrix differs from the Gallina build_matrix (TransformationsFilter.set_context, step by step)")
+    pv = ctx.coq_eval("From U2F Require Import Base.Prelude Geometry.Model Geometry.Propagate.",
+                      "fun c : (list str * list str * glyphset * glyphset) => let '(mk, incl, gs, gs') := c in "
+                      "match propagate_all mk incl gs with None => 4 | Some r => if glyphset_anchors_eqb r gs' then 3 else 2 end",
+                      prop[0], chunk=6, tag="Propagate")
+    for v, case in zip(pv, prop[1]):
+        if v == 4:
+            ctx.klass("propagate: a mark made of marks (promotion by bounds, not modelled)")
+        elif v is not None and v != 3:
+            ctx.corr_mismatch(case, "Gallina propagate_all (Geometry/Propagate.v) differs from PropagateAnchorsFilter's anchors")
     for (cases, meta), fn, tag, msg in (
             (pres, FN_PRES, "Pres", "resolved outlines changed by the decomposing filter (Coq render_preserved false)"),
             (flat, FN_FLAT, "Flat", "flattening changed the resolved outlines or left nesting deeper than one level"),
